@@ -446,7 +446,7 @@ def rule_ignore_filter(m, rid):
 def rule_semicolon(m, rid):
     r = RuleResult(rid, "';' never splits a literal: it is applied to the tokenised line, every part has the replace map undone and "
                         "label then construct name re-extracted")
-    r.floor = 6
+    r.floor = 7
     nx = reader_func(m, "_next")
     splits = [c for c in A.calls(nx.node) if isinstance(c.func, ast.Attribute) and c.func.attr == "split" and c.args and A.const(c.args[0]) == ";"]
     if not splits:
@@ -550,8 +550,9 @@ def rule_semicolon(m, rid):
     r.instances += 1
     lines = [c for c in A.calls(nx.node) if A.text(c.func) == "Line"]
     copies = [c for c in A.calls(nx.node) if isinstance(c.func, ast.Attribute) and c.func.attr == "copy"]
-    ok = bool(lines) and all("apply_map(" in A.text(c.args[0]) for c in lines) and \
-        all(any(k.arg == "apply_map" and A.const(k.value) is True for k in c.keywords) for c in copies)
+    ok = bool(lines or copies) and all("apply_map(" in A.text(c.args[0]) for c in lines) and \
+        all(any(k.arg == "apply_map" and A.const(k.value) is True for k in c.keywords) or
+            (len(c.args) >= 2 and A.const(c.args[1]) is True) for c in copies)
     if ok:
         ok = all(len(c.args) >= 5 and A.text(c.args[1]).endswith(".span") and A.text(c.args[4]).endswith(".reader") for c in lines)
         if not ok:
@@ -562,6 +563,46 @@ def rule_semicolon(m, rid):
     if not ok:
         r.fail("_next|apply_map", "_next builds a Line for a ';' part without undoing the replace map: placeholders of literals "
                "would reach the parser", m.loc(nx))
+    # label and construct name of the LATER parts are exactly what was extracted from that part (None when it has none): a part
+    # built as a copy of the whole line's item would otherwise inherit the label/name of the first statement
+    r.instances += 1
+    lab_var = name_var = None
+    for n in A.body_nodes(nx.node):
+        if isinstance(n, ast.Assign) and isinstance(n.value, ast.Call) and isinstance(n.targets[0], ast.Tuple) and len(n.targets[0].elts) == 2:
+            if A.text(n.value.func) == "extract_label":
+                lab_var = A.text(n.targets[0].elts[0])
+            if A.text(n.value.func) == "extract_construct_name":
+                name_var = A.text(n.targets[0].elts[0])
+    loops = [n for n in A.body_nodes(nx.node) if isinstance(n, ast.For) and
+             any(isinstance(c, ast.Call) and A.text(c.func) in ("extract_label",) for c in ast.walk(n))]
+    inherit = None
+    if lab_var and name_var and loops:
+        lp = loops[0]
+        Pl = A.parents(lp)
+        for c in [c for c in ast.walk(lp) if isinstance(c, ast.Call)]:
+            if A.text(c.func) == "Line" and len(c.args) >= 4:
+                if A.text(c.args[2]) != lab_var or A.text(c.args[3]) != name_var:
+                    inherit = (c, "is built with label `%s` / name `%s` rather than the ones extracted from the part" % (A.text(c.args[2]), A.text(c.args[3])))
+            elif isinstance(c.func, ast.Attribute) and c.func.attr == "copy":
+                # the object the copy is bound to
+                asg = Pl.get(c)
+                tgt = A.text(asg.targets[0]) if isinstance(asg, ast.Assign) else None
+                blk = Pl.get(asg)
+                sibs = []
+                for field in ("body", "orelse"):
+                    b = getattr(blk, field, None)
+                    if isinstance(b, list) and asg in b:
+                        sibs = b
+                sets = {A.text(t): A.text(s_.value) for s_ in sibs if isinstance(s_, ast.Assign) for t in s_.targets}
+                if tgt is None or sets.get("%s.label" % tgt) != lab_var or sets.get("%s.name" % tgt) != name_var:
+                    inherit = (c, "is a copy of the whole line's item whose label/name are not unconditionally replaced by the ones "
+                                  "extracted from the part")
+    elif not (lab_var and name_var and loops):
+        r.error("_next: the loop building the later ';' parts (extract_label / extract_construct_name) was not found (anchor changed)")
+    r.ob(inherit is None, "_next: later ';' parts carry exactly their own label and construct name")
+    if inherit is not None:
+        r.fail("_next|part-label", "_next: the item of a later ';' part %s: `10 a = 1; b = 2` gives `b = 2` the label 10 (and `outer: do i=1,3; x = i` "
+               "names the assignment)" % inherit[1], m.loc(nx, inherit[0]))
     return r
 
 
